@@ -793,6 +793,13 @@ impl<M: Math, T: Transformation<M>> Hamiltonian<M> for TransformedHamiltonian<M,
 
         point.index_in_trajectory = 0;
         point.initial_energy = point.energy();
+        #[cfg(nuts_rs_verif)]
+        crate::verif::emit("momentum", || {
+            crate::verif::json!({"ev": "momentum", "resample": resample_velocity,
+                "micro": self.kinetic_energy_kind == KineticEnergyKind::Microcanonical,
+                "v": crate::verif::bits_vec(&math.box_array(&point.velocity)),
+                "ke": crate::verif::bits(point.kinetic_energy)})
+        });
         Ok(())
     }
 
